@@ -3,10 +3,10 @@
     bookkeeping the h2 library does for it (stream windows, connection window, SETTINGS_INITIAL_WINDOW_SIZE deltas,
     max frame size).  Data is length-abstracted: a queued chunk is its length; [None] is the end-of-stream sentinel.
 
-    This is the model of the REPAIRED loop (fixes/C29-negative-window.patch): the frame size is
-    [max 0 (min max_frame_size (min stream_window connection_window))].  The code at the pinned commit takes a slice
-    with a negative bound when a SETTINGS frame has made the window negative, h2 refuses the oversized frame with
-    FlowControlError and the loop is never rescheduled (see design.d/C29.md).
+    This is the model of the REPAIRED loop (fixes/C29-negative-window.patch): while the window of the chosen stream
+    is negative nothing is sent on it and the loop reschedules itself.  The code at the pinned commit takes a slice
+    with a negative bound when a SETTINGS frame has made the window negative (or tries to end the stream with an
+    empty DATA frame), h2 refuses with FlowControlError and the loop is never rescheduled (see design.d/C29.md).
 
     The priority tree is an oracle: [adv_on i] serves stream [i]; [step _ Adv] uses the round-robin of the
     vendor/priority shim.  Oracles not modelled: h2's framing and HPACK, header frames, the priority algorithm. *)
@@ -51,33 +51,49 @@ Definition find_stream (i : nat) (l : list stream) : option stream :=
 Definition remove_stream (i : nat) (l : list stream) : list stream :=
   filter (fun s => negb (Nat.eqb (sid s) i)) l.
 
+(** the DATA frame length the loop chooses for the head chunk of stream y *)
+Definition frame_len (cw mf : Z) (y : stream) : Z :=
+  match q y with
+  | Some n :: _ => Z.min n (Z.max 0 (Z.min mf (Z.min (swin y) cw)))
+  | _ => 0
+  end.
+
+(** popleft, cut at the frame size, push the excess back, send_data *)
+Definition send_on (cw mf : Z) (y : stream) : stream :=
+  match q y with
+  | Some n :: rest =>
+      let mfs := Z.max 0 (Z.min mf (Z.min (swin y) cw)) in
+      let n1 := Z.min n mfs in
+      if Z.ltb 0 n1 then
+        let rest1 := if Z.ltb mfs n then Some (n - mfs) :: rest else rest in
+        mkS (sid y) rest1 (swin y - n1) (match rest1 with [] => true | _ => blocked y end) (sent y + n1) (body y)
+      else y            (* nothing can be sent: the whole chunk is pushed back *)
+  | _ => y
+  end.
+
 (** one iteration of _sendPrioritisedData serving stream i *)
 Definition adv_on (i : nat) (s : st) : st :=
   match find_stream i (streams s) with
   | None => s
   | Some x =>
+      if Z.ltb (Z.min (swin x) (cwin s)) 0 then
+        (* repaired: negative window (SETTINGS decrease) -- send nothing, not even END_STREAM; try again later *)
+        mk (streams s) (cwin s) (maxf s) (iw s) (Some i) true (log s)
+      else
       match q x with
       | [] => s                                             (* the code would raise IndexError; unreachable *)
       | None :: _ =>
           (* end_stream + _requestDone *)
           mk (remove_stream i (streams s)) (cwin s) (maxf s) (iw s) (Some i) true
              (EEnd i (sent x) (body x) :: log s)
-      | Some n :: rest =>
-          let rw := Z.min (swin x) (cwin s) in
-          let mfs := Z.max 0 (Z.min (maxf s) rw) in
-          let n1 := Z.min n mfs in
-          let rest1 := if Z.ltb mfs n then Some (n - mfs) :: rest else rest in
+      | Some _ :: _ =>
+          let n1 := frame_len (cwin s) (maxf s) x in
           if Z.ltb 0 n1 then
-            mk (upd_stream i (fun y => mkS (sid y) rest1 (swin y - n1)
-                                          (match rest1 with [] => true | _ => blocked y end)
-                                          (sent y + n1) (body y)) (streams s))
+            mk (upd_stream i (send_on (cwin s) (maxf s)) (streams s))
                (cwin s - n1) (maxf s) (iw s) (Some i) true
                (EData i n1 (swin x) (cwin s) (maxf s) :: log s)
           else
-            mk (upd_stream i (fun y => mkS (sid y) rest1 (swin y)
-                                          (match rest1 with [] => true | _ => blocked y end)
-                                          (sent y) (body y)) (streams s))
-               (cwin s) (maxf s) (iw s) (Some i) true (log s)
+            mk (streams s) (cwin s) (maxf s) (iw s) (Some i) true (log s)
       end
   end.
 
